@@ -264,7 +264,8 @@ class Editor:
         if len(ch) != 1:
             return False
         if ch in nu["alphabet"]:
-            return True
+            # nothing can be typed in front of the leading minus sign (it would stop being leading)
+            return not (self.pos == 0 and self.text[:1] == self.cs.lit("-"))
         return bool(nu["negative"] and ch == "-" and self.pos == 0 and self.cs.lit("-") not in self.text)
 
     def _trim(self, text, pos, steps):
@@ -283,6 +284,8 @@ class Editor:
         if text != self.text:
             steps.append(text)
         text, pos = self._trim(text, pos, steps)
+        if len(steps) > 1:
+            prefs = frozenset([None])  # any modification of the text forgets the preferred column
         return Outcome(text, pos, prefs, steps, (None,), note)
 
     def _noop(self, key, extra_prefs=(), note="noop"):
